@@ -16,18 +16,6 @@ pub proof fn lemma_block_sat(q: Quantifier, vars: Seq<Variable>, body: Formula, 
     assert(ht_pred(body, w, m) == (|s2: Asg| ht_sat(body, w, m, s2)));
 }
 
-pub proof fn lemma_contains_bound(xs: Seq<Variable>, v: Variable)
-    ensures xs.contains(v) == bound_by(xs, vkey(v)),
-{
-    if xs.contains(v) {
-        let i = choose|i: int| 0 <= i < xs.len() && xs[i] == v;
-        assert(vkey(xs[i]) == vkey(v));
-    }
-    if bound_by(xs, vkey(v)) {
-        let i = choose|i: int| 0 <= i < xs.len() && #[trigger] vkey(xs[i]) == vkey(v);
-        assert(xs[i] == v);
-    }
-}
 
 /// after i binders: vs are the (possibly renamed) binders so far, f the (possibly renamed) body
 pub open spec fn loop_inv(q: Quantifier, xs: Seq<Variable>, f0: Formula, var: Variable, term: GeneralTerm,
